@@ -866,6 +866,12 @@ pub fn proxy_set_prototype_of(
                     JsValue::Object(p) => Some(p),
                     _ => return Err(JsError::type_error("Prototype must be object or null")),
                 };
+                if let Some(ref p) = new_proto
+                    && super::object::would_create_prototype_cycle(&obj, p)
+                {
+                    // Reflect.setPrototypeOf reports failure instead of throwing
+                    return Ok(false);
+                }
                 obj.borrow_mut().prototype = new_proto;
                 return Ok(true);
             }
